@@ -154,6 +154,7 @@ def mentions (k : Nat) : Op → Bool
   | .removeKey p _ => p.root == k
   | .clear p => p.root == k
   | .extend p q => p.root == k || q.root == k
+  | .setSub p _ => p.root == k
   | .clone j q => j == k || q.root == k
   | .copy j q => j == k || q.root == k
   | .drop j => j == k
@@ -301,6 +302,7 @@ theorem assign_lit_spec (σ σ' : State) (t : Loc) (sl : Option Loc) (p : Path) 
   | bool b => exact scalarCase _ (Lit.toV_scalar (.bool b)) h
   | nlong i => exact scalarCase _ (Lit.toV_scalar (.nlong i)) h
   | nulong u => exact scalarCase _ (Lit.toV_scalar (.nulong u)) h
+  | ulong u => exact scalarCase _ (Lit.toV_scalar (.ulong u)) h
 
 /-- the hypotheses of `assign_spec_state` are met by `v = v[0]` on `v = [[1,2],5]`: the assignment is executed and
 `v` then holds the handle of the former element -/
@@ -394,6 +396,107 @@ theorem ctor_vars_spec (σ σ' : State) (k : Nat) (qs : List Path) (inv : Inv σ
       have hin : v ∈ hvals σ'.heap := mem_hvals_of_getB hb' (by rw [bvals, e1]; simp [List.map_map, Function.comp_def, hv])
       exact content_sub sub inv'.wf f v t (Or.inr hin)
         (content_mono (getB_append_mono _) f v t (content_same same f v t ht))
+
+/-! ## rarely used overloads and boundary arguments (defect hunt, round 4): ULong, Var(Type), string key on an array,
+`removeAt` counts near INT_MAX, assignment of a piece of the Var's own string -/
+
+/-- `Var(ULong)` / `v = (ULong)u` (exact below 2^53): a NUMBER of that value which `(ULong)v` and `(Long)v` give back -/
+theorem accessors_ulong (u : Nat) (hu : u < 9007199254740992) :
+    typeOf (mkULong u) = tNUMBER ∧ numOf (mkULong u) = some (Dy.ofInt u) ∧ toULong (mkULong u) = some u ∧
+    toLong (mkULong u) = some (u : Int) := by
+  have ht : (Dy.ofInt (u : Int)).trunc = (u : Int) := by simp [Dy.ofInt, Dy.trunc]
+  refine ⟨rfl, by simp [mkULong, hu, numOf, Dy.norm_ofInt], ?_, ?_⟩
+  · simp only [mkULong, hu, if_true, toULong, toLong, ht]
+    have h1 : ¬ ((u : Int) ≥ 9223372036854775808) := by omega
+    have h2 : (-9223372036854775808 ≤ (u : Int) ∧ (u : Int) < 9223372036854775808) := by omega
+    simp only [h1, h2, if_false, if_true, and_self, Option.map_some]
+    congr 1
+    omega
+  · simp only [mkULong, hu, if_true, toLong, ht]
+    have h2 : (-9223372036854775808 ≤ (u : Int) ∧ (u : Int) < 9223372036854775808) := by omega
+    simp only [h2, and_self, if_true]
+
+/-- `(ULong)v` for a NUMBER from 2^63 up to 2^64 (commit c047585): the value itself, not a detour through `Long` -/
+theorem ulong_above_long_range (m : Nat) (h1 : 9223372036854775808 ≤ m) (h2 : m < 18446744073709551616) :
+    toULong (.num ⟨(m : Int), 0⟩) = some m ∧ toLong (.num ⟨(m : Int), 0⟩) = none := by
+  have ht : (Dy.mk (m : Int) 0).trunc = (m : Int) := by simp [Dy.trunc]
+  constructor
+  · simp only [toULong, ht]
+    have a : (m : Int) ≥ 9223372036854775808 := by omega
+    have b : (m : Int) < 18446744073709551616 := by omega
+    simp only [a, b, if_true, Int.toNat_natCast]
+  · simp only [toLong, ht]
+    have a : ¬ (-9223372036854775808 ≤ (m : Int) ∧ (m : Int) < 9223372036854775808) := by omega
+    simp only [a, if_false]
+
+/-- `Var(Var::INT)`, `Var(Var::NUMBER)`, `Var(Var::FLOAT)`, `Var(Var::BOOL)` (commit 11663a3): zero / false, no new block -/
+theorem ctor_type_zero (h : Heap) :
+    mkType h tINT = .ok (h, .int 0) ∧ mkType h tNUMBER = .ok (h, .num (Dy.ofInt 0)) ∧
+    mkType h tFLOAT = .ok (h, .flt (Dy.ofInt 0)) ∧ mkType h tBOOL = .ok (h, .bool false) ∧
+    toInt (.int 0) = some 0 ∧ numOf (.num (Dy.ofInt 0)) = some (Dy.ofInt 0) ∧ numOf (.flt (Dy.ofInt 0)) = some (Dy.ofInt 0) ∧
+    Var.toBool (.bool false) = false := by
+  refine ⟨rfl, rfl, rfl, rfl, rfl, ?_, ?_, rfl⟩ <;> simp [numOf, Dy.norm_ofInt]
+
+/-- `v["7"]` on an ARRAY (commit 7407dbc): the non-const `operator[](const String&)` takes exactly the step
+`operator[]((int)key)` — auto-creating like the int index, never beyond the block (`history_safe` covers it) -/
+theorem string_key_on_array_is_index (g : Bool) (src : Option Loc) (σ : State) (l : Loc) (id : Nat) (k : Bytes) (rest : List Step)
+    (h : readLoc σ l = .ok (.arr id)) (hk : 0 ≤ myatoi k) :
+    resolveMut g src σ l (.key k :: rest) = resolveMut g src σ l (.idx (myatoi k).toNat :: rest) := by
+  have hn : ¬ (myatoi k < 0) := by omega
+  simp only [resolveMut, normStep, h, hn, if_false]
+
+/-- `removeAt(i, n)` (commits 17b939b, 0854fc0): for EVERY `int` pair outside `0 <= i < len, 0 < n <= len - i` — `n = INT_MAX`
+included; the model's test is in unbounded integers — the call changes nothing -/
+theorem removeAt_out_of_range_noop (σ : State) (t : Loc) (sl : Option Loc) (p : Path) (i n : Int) (id : Nat) (b : Block)
+    (hr : readLoc σ t = .ok (.arr id)) (hb : getB σ.heap id = .ok b)
+    (h : i < 0 ∨ n ≤ 0 ∨ (b.items.length : Int) ≤ i ∨ (b.items.length : Int) - i < n) :
+    opBody true σ t sl (.removeAt p i n) = .ok σ := by
+  simp only [opBody]
+  by_cases h0 : i < 0 ∨ n ≤ 0
+  · simp only [h0, if_true]
+  · simp only [h0, if_false, removeAtV, hr, hb, bind, Except.bind]
+    have hc : ¬ (n.toNat > 0 ∧ i.toNat < b.items.length ∧ i.toNat + n.toNat ≤ b.items.length) := by omega
+    simp only [hc, if_false, pure, Except.pure]
+
+/-- **assign_suffix_spec** — `p = *p + off` (commit 0cc196d): an executed `const char*` assignment from inside the Var's own
+string leaves the Var readable, denoting exactly the suffix; the invariant holds -/
+theorem assign_suffix_spec (σ σ' : State) (t : Loc) (sl : Option Loc) (p : Path) (off : Nat) (inv : Inv σ []) (hl : ValidLoc σ t)
+    (h : opBody true σ t sl (.setSub p off) = .ok σ') :
+    ∃ s, (readLoc σ t = .ok (.str s) ∨ readLoc σ t = .ok (.sstr s)) ∧ off ≤ s.length ∧
+      ∃ v', readLoc σ' t = .ok v' ∧ content 1 σ'.heap v' = some (.str (s.drop off)) ∧ Inv σ' [] := by
+  have hms : ∀ x : Bytes, content 1 [] (mkString x) = some (.str x) := by
+    intro x; unfold mkString; split <;> rfl
+  simp only [opBody, assignSuffix] at h
+  obtain ⟨old, hr, _⟩ := readLoc_valid hl []
+  rw [hr] at h
+  have fin : ∀ s : Bytes, (old = .str s ∨ old = .sstr s) → off ≤ s.length → assignString σ t (s.drop off) = .ok σ' →
+      ∃ s, (readLoc σ t = .ok (.str s) ∨ readLoc σ t = .ok (.sstr s)) ∧ off ≤ s.length ∧
+      ∃ v', readLoc σ' t = .ok v' ∧ content 1 σ'.heap v' = some (.str (s.drop off)) ∧ Inv σ' [] := by
+    intro s hs hoff ha
+    obtain ⟨v', h1, _, h3, h4⟩ := assign_lit_spec σ σ' t sl p (.str (s.drop off)) inv hl ha
+    refine ⟨s, ?_, hoff, v', h1, by rw [h3]; exact hms _, h4⟩
+    rcases hs with rfl | rfl
+    · exact Or.inl hr
+    · exact Or.inr hr
+  cases old with
+  | str s =>
+    simp only [] at h
+    split at h
+    · rename_i hoff; exact fin s (Or.inl rfl) hoff h
+    · cases h
+  | sstr s =>
+    simp only [] at h
+    split at h
+    · rename_i hoff; exact fin s (Or.inr rfl) hoff h
+    · cases h
+  | none => cases h
+  | null => cases h
+  | bool _ => cases h
+  | int _ => cases h
+  | num _ => cases h
+  | flt _ => cases h
+  | arr _ => cases h
+  | obj _ => cases h
 
 /-! ## clone_deep: clone() yields a deep copy that no later mutation of the original can change -/
 
